@@ -52,18 +52,20 @@ Record state := mkState {
   s_black : list N;
   s_maxauth : list (N * N);
   s_promise : list (N * N);
-  s_par : params
+  s_par : params;
+  s_prev : list (N * peerv)             (* the peer pool stored under view-1 (read by the fee split) *)
 }.
 
-Definition set_view v h s := mkState v h (s_pool s) (s_infos s) (s_stakes s) (s_pens s) (s_ont s) (s_black s) (s_maxauth s) (s_promise s) (s_par s).
-Definition set_pool x s := mkState (s_view s) (s_vheight s) x (s_infos s) (s_stakes s) (s_pens s) (s_ont s) (s_black s) (s_maxauth s) (s_promise s) (s_par s).
-Definition set_infos x s := mkState (s_view s) (s_vheight s) (s_pool s) x (s_stakes s) (s_pens s) (s_ont s) (s_black s) (s_maxauth s) (s_promise s) (s_par s).
-Definition set_stakes x s := mkState (s_view s) (s_vheight s) (s_pool s) (s_infos s) x (s_pens s) (s_ont s) (s_black s) (s_maxauth s) (s_promise s) (s_par s).
-Definition set_pens x s := mkState (s_view s) (s_vheight s) (s_pool s) (s_infos s) (s_stakes s) x (s_ont s) (s_black s) (s_maxauth s) (s_promise s) (s_par s).
-Definition set_ont x s := mkState (s_view s) (s_vheight s) (s_pool s) (s_infos s) (s_stakes s) (s_pens s) x (s_black s) (s_maxauth s) (s_promise s) (s_par s).
-Definition set_black x s := mkState (s_view s) (s_vheight s) (s_pool s) (s_infos s) (s_stakes s) (s_pens s) (s_ont s) x (s_maxauth s) (s_promise s) (s_par s).
-Definition set_maxauth x s := mkState (s_view s) (s_vheight s) (s_pool s) (s_infos s) (s_stakes s) (s_pens s) (s_ont s) (s_black s) x (s_promise s) (s_par s).
-Definition set_promise x s := mkState (s_view s) (s_vheight s) (s_pool s) (s_infos s) (s_stakes s) (s_pens s) (s_ont s) (s_black s) (s_maxauth s) x (s_par s).
+Definition set_view v h s := mkState v h (s_pool s) (s_infos s) (s_stakes s) (s_pens s) (s_ont s) (s_black s) (s_maxauth s) (s_promise s) (s_par s) (s_prev s).
+Definition set_pool x s := mkState (s_view s) (s_vheight s) x (s_infos s) (s_stakes s) (s_pens s) (s_ont s) (s_black s) (s_maxauth s) (s_promise s) (s_par s) (s_prev s).
+Definition set_infos x s := mkState (s_view s) (s_vheight s) (s_pool s) x (s_stakes s) (s_pens s) (s_ont s) (s_black s) (s_maxauth s) (s_promise s) (s_par s) (s_prev s).
+Definition set_stakes x s := mkState (s_view s) (s_vheight s) (s_pool s) (s_infos s) x (s_pens s) (s_ont s) (s_black s) (s_maxauth s) (s_promise s) (s_par s) (s_prev s).
+Definition set_pens x s := mkState (s_view s) (s_vheight s) (s_pool s) (s_infos s) (s_stakes s) x (s_ont s) (s_black s) (s_maxauth s) (s_promise s) (s_par s) (s_prev s).
+Definition set_ont x s := mkState (s_view s) (s_vheight s) (s_pool s) (s_infos s) (s_stakes s) (s_pens s) x (s_black s) (s_maxauth s) (s_promise s) (s_par s) (s_prev s).
+Definition set_black x s := mkState (s_view s) (s_vheight s) (s_pool s) (s_infos s) (s_stakes s) (s_pens s) (s_ont s) x (s_maxauth s) (s_promise s) (s_par s) (s_prev s).
+Definition set_maxauth x s := mkState (s_view s) (s_vheight s) (s_pool s) (s_infos s) (s_stakes s) (s_pens s) (s_ont s) (s_black s) x (s_promise s) (s_par s) (s_prev s).
+Definition set_prev x s := mkState (s_view s) (s_vheight s) (s_pool s) (s_infos s) (s_stakes s) (s_pens s) (s_ont s) (s_black s) (s_maxauth s) (s_promise s) (s_par s) x.
+Definition set_promise x s := mkState (s_view s) (s_vheight s) (s_pool s) (s_infos s) (s_stakes s) (s_pens s) (s_ont s) (s_black s) (s_maxauth s) x (s_par s) (s_prev s).
 
 (** Result classes (the driver maps the implementation's error texts to these). *)
 Inductive res :=
@@ -426,7 +428,9 @@ Definition commit_core (h : N) (s : state) : outcome state :=
   let sorted := map snd (sort_desc peers) in
   do s2 <- transitions s1 (firstn K sorted) true;
   do s3 <- transitions s2 (skipn K sorted) false;
-  Ok (set_view (s_view s + 1) h s3).
+  (* putPeerPoolMap(newView): the map stored under the old view index stays as it was when the
+     commit started and becomes the previous view's pool; the one under view-1 is deleted *)
+  Ok (set_prev (s_pool s) (set_view (s_view s + 1) h s3)).
 
 Definition exec_commit (h : N) (s : state) (signer : N) : outcome state :=
   let par := s_par s in
@@ -556,4 +560,5 @@ Definition genesis_pool (peers : list (N * N * N)) : list (N * peerv) :=
   fold_left (fun acc x => let '(k, owner, init) := x in pset k (mkPV owner ConsensusStatus init 0) acc) peers [].
 
 Definition genesis (par : params) (h : N) (peers : list (N * N * N)) (ont : list (N * N)) : state :=
-  mkState 1 h (genesis_pool peers) [] (genesis_stakes peers []) [] ont [] [] [] par.
+  (* InitConfig stores the same map under view 0 and view 1 *)
+  mkState 1 h (genesis_pool peers) [] (genesis_stakes peers []) [] ont [] [] [] par (genesis_pool peers).
